@@ -42,6 +42,70 @@ Theorem C12_guard_refuses_beyond_radius : forall ids1 ids2 dists radii rtol d r,
 Proof. exact guard_refuses_beyond_radius. Qed.
 Print Assumptions C12_guard_refuses_beyond_radius.
 
+(* ---- measurements with any number of catalogs (autocorrelate: 2, crosscorrelate: 3 or 4) ---- *)
+Theorem C12_guard_many_refuses : forall key cats dt rtol,
+  cats <> [] -> guard_many_by key cats dt rtol = true ->
+  (forall j, (j < length cats)%nat -> g_ids (gnth cats j) = g_ids (gnth cats 0)) /\
+  exists ref, (ref < length cats)%nat /\
+    (forall j, (j < length cats)%nat -> lex_ltb (key (gnth cats ref)) (key (gnth cats j)) = false) /\
+    (forall j, (j < ref)%nat -> lex_ltb (key (gnth cats j)) (key (gnth cats ref)) = true) /\
+    forall j, (j < length cats)%nat -> j <> ref ->
+      forall dr, In dr (combine (tab dt ref j) (g_radii (gnth cats ref))) -> fst dr <= rtol * snd dr.
+Proof. exact guard_many_refuses. Qed.
+Print Assumptions C12_guard_many_refuses.
+
+Theorem C12_guard_many_within_radius : forall key cats dt rtol,
+  cats <> [] -> 0 <= rtol -> rtol <= 1 ->
+  (forall c r, In c cats -> In r (g_radii c) -> 0 <= r) ->
+  guard_many_by key cats dt rtol = true ->
+  exists ref, (ref < length cats)%nat /\
+    (forall j, (j < length cats)%nat -> lex_ltb (key (gnth cats ref)) (key (gnth cats j)) = false) /\
+    forall j, (j < length cats)%nat -> j <> ref ->
+      forall dr, In dr (combine (tab dt ref j) (g_radii (gnth cats ref))) -> fst dr <= snd dr.
+Proof. exact guard_many_within_radius. Qed.
+Print Assumptions C12_guard_many_within_radius.
+
+Theorem C12_guard_many_two : forall key a b dt rtol,
+  guard_many_by key [a; b] dt rtol =
+  if lex_ltb (key a) (key b) then guard (g_ids b) (g_ids a) (tab dt 1 0) (g_radii b) rtol
+  else guard (g_ids b) (g_ids a) (tab dt 0 1) (g_radii a) rtol.
+Proof. exact guard_many_two. Qed.
+Print Assumptions C12_guard_many_two.
+
+Theorem C12_checking_order_is_a_permutation : forall (A : Type) (key : A -> list nat) l,
+  Permutation (sort_desc key l) l.
+Proof. exact @sort_desc_perm. Qed.
+Print Assumptions C12_checking_order_is_a_permutation.
+
+Theorem C12_guard_checking_order_irrelevant : forall rtol radii others others',
+  Permutation others others' -> check_fixed rtol radii others = check_fixed rtol radii others'.
+Proof. exact check_fixed_perm. Qed.
+Print Assumptions C12_guard_checking_order_irrelevant.
+
+Theorem C12_guard_many_pairwise : forall rtol radii others,
+  check_fixed rtol radii others = true <-> forall d, In d others -> within rtol d radii = true.
+Proof. exact check_fixed_pairwise. Qed.
+Print Assumptions C12_guard_many_pairwise.
+
+Theorem C12_guard_many_some_reference : forall cats dt rtol,
+  cats <> [] -> guard_many cats dt rtol = true -> guard_some_ref cats dt rtol = true.
+Proof. exact guard_many_some_ref. Qed.
+Print Assumptions C12_guard_many_some_reference.
+
+Theorem C12_inflated_radii_accept_more : forall rtol, 0 <= rtol -> forall others radii,
+  check_fixed rtol radii (map fst others) = true -> check_running rtol radii others = true.
+Proof. exact check_fixed_implies_running. Qed.
+Print Assumptions C12_inflated_radii_accept_more.
+
+Theorem C12_inflated_radii_refuted :
+  exists radii others d r,
+    In (d, r) (combine (fst (nth 1 others ([], []))) radii) /\ d == 3 * r /\
+    check_fixed (1 # 2) radii (map fst others) = false /\
+    check_running (1 # 2) radii others = true /\
+    check_running (1 # 2) radii (rev others) = false.
+Proof. exact check_running_refuted. Qed.
+Print Assumptions C12_inflated_radii_refuted.
+
 Theorem C12_option_precedence :
   (forall name num, determine true name num = Some Apply) /\
   (forall num, determine false true num = Some Divide) /\
@@ -97,5 +161,13 @@ Example C12_concrete :
   radius (compute [1#2; 3#4; 1#4] None) = 3#4 /\ guard [0;1]%nat [0;1]%nat [1#10; 3#4] [1; 1] (1#2) = false /\
   patch_data (Some argmin) [ {| recs := [[1#4; 3#4]; [3#4; 1#4]]; col := Some [1; 0]%nat |};
                              {| recs := [[1#8; 1#2]]; col := Some [1]%nat |} ] 0 = Some [[1#4; 3#4]; [1#8; 1#2]] /\
-  c12_split_case true true false [[1#4; 3#4]; [3#4; 1#4]] (Some [1; 0]%nat) [1; 0]%nat = 3%nat.
+  c12_split_case true true false [[1#4; 3#4]; [3#4; 1#4]] (Some [1; 0]%nat) [1; 0]%nat = 3%nat /\
+  (* crosscorrelate(reference, unknown, ref_rand): compact reference randoms (most records), wide
+     unknown sample, reference sample three patch radii off *)
+  let cats := [ {| g_ids := [0; 1]%nat; g_nrec := [100; 100]%nat; g_radii := [2#5; 2#5] |};
+                {| g_ids := [0; 1]%nat; g_nrec := [500; 500]%nat; g_radii := [3; 3] |};
+                {| g_ids := [0; 1]%nat; g_nrec := [2000; 2000]%nat; g_radii := [2#5; 2#5] |} ] in
+  let dt := [ [ []; [6#5; 6#5]; [6#5; 6#5] ]; [ [6#5; 6#5]; []; [0; 0] ]; [ [6#5; 6#5]; [0; 0]; [] ] ] in
+  check_order g_nrec cats = [2; 1; 0]%nat /\ guard_many cats dt (1#2) = false /\
+  c12_guardn_case cats dt true = 7%nat /\ c12_guardn_case cats dt false = 0%nat.
 Proof. vm_compute. repeat split; reflexivity. Qed.
